@@ -1,7 +1,7 @@
 #!/bin/bash
 # tools/save_seed.sh <id-lowercase> <detected-by text> : store a confirmed seeded change under /verif/seeded/<ID>/
 id=$1; shift; detected="$*"
-base=${id%b}; ID=$(echo $base | tr a-z A-Z); DIR=$ID${id#$base}; src=/tmp/seed-$id-out; dst=/verif/seeded/$DIR
+base=${id:0:3}; ID=$(echo $base | tr a-z A-Z); DIR=$ID${id#$base}; src=/tmp/seed-$id-out; dst=/verif/seeded/$DIR
 mkdir -p $dst; cp $src/patch.diff $dst/patch.diff; rm -rf $dst/demo; cp -r $src/demo $dst/demo
 python3 - "$src/meta.json" "$dst/meta.json" "$ID" "$detected" "$DIR" <<'PY'
 import json,sys
